@@ -169,6 +169,10 @@ def finish(prop, tier, reports, t0, level="model_checking", extra_cov=None, must
             results = [{"reproduced": None, "detail": "replay harness error"} for _ in replay_in]
     for c, r in zip(replay_in, results):
         c["replay_result"] = r
+    by_name = {c["name"]: c for c in replay_in}
+    for c in cex:
+        if c.get("same_as") and c["same_as"] in by_name:  # further solver witnesses of an already replayed failure class
+            c["replay_result"] = by_name[c["same_as"]].get("replay_result")
     lines = []
     violations = []
     known_hits = {}
